@@ -38,10 +38,12 @@ type world struct {
 	hdr   map[ssa.Value]bool // param origin whose Header was re-sliced and not restored
 	errs  map[ssa.Value]bool // error value -> known to be nil (true) / non-nil (false) in this world
 	deriv map[ssa.Value]string // origin -> heap field that holds an un-copied slice of its Body/Header
+	dfree map[ssa.Value]bool   // origins with a pending `defer m.Free()` (released at rundefers)
+	wr    map[ssa.Value]string // origin -> where the message was first written through (Header/Body)
 }
 
 func newWorld() *world {
-	return &world{o: map[ssa.Value]ost{}, alias: map[ssa.Value]ssa.Value{}, agg: map[*ssa.Alloc][]ssa.Value{}, hdr: map[ssa.Value]bool{}, errs: map[ssa.Value]bool{}, deriv: map[ssa.Value]string{}}
+	return &world{o: map[ssa.Value]ost{}, alias: map[ssa.Value]ssa.Value{}, agg: map[*ssa.Alloc][]ssa.Value{}, hdr: map[ssa.Value]bool{}, errs: map[ssa.Value]bool{}, deriv: map[ssa.Value]string{}, dfree: map[ssa.Value]bool{}, wr: map[ssa.Value]string{}}
 }
 
 func (w *world) clone() *world {
@@ -63,6 +65,12 @@ func (w *world) clone() *world {
 	}
 	for k, v := range w.deriv {
 		n.deriv[k] = v
+	}
+	for k, v := range w.dfree {
+		n.dfree[k] = v
+	}
+	for k, v := range w.wr {
+		n.wr[k] = v
 	}
 	return n
 }
@@ -96,6 +104,12 @@ func (w *world) key() string {
 	}
 	for k, v := range w.deriv {
 		parts = append(parts, "deriv:"+k.Name()+"="+v)
+	}
+	for k := range w.dfree {
+		parts = append(parts, "dfree:"+k.Name())
+	}
+	for k := range w.wr {
+		parts = append(parts, "wr:"+k.Name())
 	}
 	sort.Strings(parts)
 	return strings.Join(parts, ";")
@@ -175,6 +189,7 @@ type e5Ctx struct {
 	seen map[string]bool
 	exit []*world // worlds at returns with the returned error description
 	exitErr []string
+	hdrStrip map[*ssa.Parameter]ssa.Instruction // where the parameter's header was re-sliced
 }
 
 func (c *e5Ctx) issue(kind string, in ssa.Instruction, what, msg string) {
@@ -670,6 +685,16 @@ func (c *e5Ctx) transfer(w *world, ins ssa.Instruction) bool {
 				}
 			}
 		}
+		// element store into the message's Header/Body
+		if ia, ok := x.Addr.(*ssa.IndexAddr); ok {
+			if mv, _ := derivedFromMsg(ia.X); mv != nil {
+				if o, ok := c.origin(w, mv); ok && o != nil {
+					if _, seen := w.wr[o]; !seen {
+						w.wr[o] = c.p.InstrPos(ins)
+					}
+				}
+			}
+		}
 		// an un-copied slice of a message buffer stored into a heap field
 		if mv, _ := derivedFromMsg(x.Val); mv != nil {
 			if fa, ok := x.Addr.(*ssa.FieldAddr); ok && !isMsgPtr(fa.X.Type()) {
@@ -683,16 +708,28 @@ func (c *e5Ctx) transfer(w *world, ins ssa.Instruction) bool {
 		// write through a message (Header/Body field or element)
 		if fa, ok := x.Addr.(*ssa.FieldAddr); ok && isMsgPtr(fa.X.Type()) {
 			c.use(w, fa.X, ins, "write to ."+fieldName(fa.X.Type(), fa.Field))
+			if o, ok := c.origin(w, fa.X); ok && o != nil {
+				if _, seen := w.wr[o]; !seen {
+					w.wr[o] = c.p.InstrPos(ins)
+				}
+			}
 			// header stripping of a parameter: m.Header = m.Header[k:] ... m.Header = saved
 			if par, isPar := stripCast(fa.X).(*ssa.Parameter); isPar && fieldName(fa.X.Type(), fa.Field) == "Header" {
 				switch v := x.Val.(type) {
 				case *ssa.Slice:
 					if v.Low != nil && Desc(v.X) == Desc(fa) {
 						w.hdr[par] = true
+						if c.hdrStrip == nil {
+							c.hdrStrip = map[*ssa.Parameter]ssa.Instruction{}
+						}
+						c.hdrStrip[par] = x
 					}
 				case *ssa.UnOp:
+					// restored only by a value of the header that was read BEFORE the strip
 					if v.Op == token.MUL && Desc(v.X) == Desc(fa) {
-						delete(w.hdr, par)
+						if at := c.hdrStrip[par]; at == nil || InstrDominates(v, at) {
+							delete(w.hdr, par)
+						}
 					}
 				}
 			}
@@ -700,6 +737,16 @@ func (c *e5Ctx) transfer(w *world, ins ssa.Instruction) bool {
 	case *ssa.FieldAddr:
 		if isMsgPtr(x.X.Type()) {
 			c.use(w, x.X, ins, "access to ."+fieldName(x.X.Type(), x.Field))
+		}
+	case *ssa.RunDefers:
+		var ds []ssa.Value
+		for o := range w.dfree {
+			ds = append(ds, o)
+		}
+		sort.Slice(ds, func(i, j int) bool { return ds[i].Name() < ds[j].Name() })
+		for _, o := range ds {
+			c.release(w, o, x, stFreed, "deferred Free")
+			delete(w.dfree, o)
 		}
 	case *ssa.Return:
 		errDesc := ""
@@ -776,6 +823,7 @@ func (c *e5Ctx) transfer(w *world, ins ssa.Instruction) bool {
 		case "Free":
 			if o, ok := c.origin(w, cc.Args[0]); ok && o != nil {
 				if _, isDefer := ins.(*ssa.Defer); isDefer {
+					w.dfree[o] = true
 					return false
 				}
 				c.release(w, o, ins, stFreed, "Free")
@@ -791,6 +839,11 @@ func (c *e5Ctx) transfer(w *world, ins ssa.Instruction) bool {
 			return false
 		case "MakeUnique":
 			c.use(w, cc.Args[0], ins, "MakeUnique")
+			if o, ok := c.origin(w, cc.Args[0]); ok && o != nil {
+				if at, seen := w.wr[o]; seen {
+					c.issue("write-before-unique", ins, c.describe(o), "the message is written through at "+at+" before MakeUnique() is called on it: the code treats the message as possibly shared (that is what MakeUnique is for), so the write lands in the copy other holders still read — they see the stripped/overwritten header or body")
+				}
+			}
 			if call, ok := ins.(*ssa.Call); ok {
 				if call.Referrers() == nil || len(*call.Referrers()) == 0 {
 					c.issue("unique-discarded", ins, Desc(cc.Args[0]), "the result of MakeUnique() is discarded: if the message was shared, the private copy is lost and the shared original (already released by MakeUnique) keeps being used")
@@ -908,4 +961,45 @@ func (p *Prog) E5() *e5Result {
 	}
 	r.issues = out
 	return r
+}
+
+// e5SendContracts: every implementation of the "send" methods (Send / SendMsg taking a
+// *Message and returning error) must honour the contract its callers rely on through the
+// interface: on an error return the message still belongs to the caller (who frees or
+// retries it), with its header as the caller passed it.  An implementation that also
+// releases it on an error path (directly or by a deferred Free) makes every caller's error
+// handling a double release.  One obligation per implementation, from E5's exit rule.
+func e5SendContracts(p *Prog, r *Report, rule string, inPkg func(rel string) bool) {
+	res := p.E5()
+	n := 0
+	var fns []*ssa.Function
+	for _, fn := range p.Funcs {
+		fns = append(fns, fn)
+	}
+	sort.Slice(fns, func(i, j int) bool { return p.FuncName(fns[i]) < p.FuncName(fns[j]) })
+	for _, fn := range fns {
+		if fn.Signature.Recv() == nil || (fn.Name() != "Send" && fn.Name() != "SendMsg") {
+			continue
+		}
+		rel, _ := p.FuncRel(fn)
+		if inPkg != nil && !inPkg(rel) {
+			continue
+		}
+		if !returnsError(fn) || len(fn.Params) != 2 || !isMsgPtr(fn.Params[1].Type()) {
+			continue
+		}
+		n++
+		key := p.FuncName(fn)
+		bad := false
+		for _, is := range res.issues {
+			if is.Fn == fn && (is.Kind == "release-on-error" || is.Kind == "modified-on-error") {
+				bad = true
+				r.Bad(rule, key+"/"+is.Kind, p.InstrPos(is.In), is.Msg)
+			}
+		}
+		if !bad {
+			r.OK(rule, key, p.Pos(fn.Pos()), "no error return releases or leaves modified the caller's message")
+		}
+	}
+	r.Count("e5.send_implementations", n)
 }
